@@ -57,7 +57,7 @@ func (Prop) Size(tier string) int {
 }
 
 func (Prop) Rule() string {
-	return "plan = generated loop-bearing program (three-clause for with optional clauses, for-in over list/string/map, if/else, break/continue, nesting<=3, v1 also use() into scripts with loops; terminating and non-terminating) x interpreter (v1, v2 when in the shared subset) x set of signal instants (event just after every poll of the uninterrupted run, event 1, random events, k-th poll); evaluation = one interrupted or control execution; a plan is non-trivial when at least one interrupted run observed the signal before the program's natural end and all five oracles were evaluated; distinct = hash of (program text, interpreters, instants)"
+	return "plan = generated loop-bearing program (three-clause for with optional clauses, for-in over list/string/map, if/else, break/continue, nesting<=3, v1 also use() into scripts with loops; terminating and non-terminating) x interpreter (v1, v2 when in the shared subset) x host signal implementation (pointer, empty struct, typed nil pointer, function adapter, struct by value) x set of signal instants (event just after every poll of the uninterrupted run, event 1, random events, k-th poll); evaluation = one interrupted or control execution; a plan is non-trivial when at least one interrupted run observed the signal before the program's natural end and all five oracles were evaluated; distinct = hash of (program text, interpreters, instants)"
 }
 
 func (Prop) Assumptions() []string {
